@@ -185,6 +185,12 @@ func (fx *FnCtx) evalIdent(st *State, id *ast.Ident) Val {
 	}
 	switch o := obj.(type) {
 	case *types.Var:
+		if v, ok := fx.cellRead(st.heap, o); ok {
+			if r := fx.rangeFact(v); r != "" {
+				st.assume(r)
+			}
+			return v
+		}
 		if v, ok := st.vars[o]; ok {
 			return v
 		}
@@ -564,6 +570,13 @@ func (fx *FnCtx) assign(st *State, lhs ast.Expr, v Val) {
 			fx.setHeap(st, globalHeap(o.Name()), v.S, v.T)
 			return
 		}
+		if h, ok := fx.cells[o]; ok {
+			if !fx.ownCells[h] {
+				fx.frameCheck(st, h, "", lhs)
+			}
+			fx.setHeap(st, h, v.S, v.T)
+			return
+		}
 		fx.setVar(st, o, v)
 	case *ast.SelectorExpr:
 		sel, ok := fx.pkg.Info.Selections[x]
@@ -634,6 +647,12 @@ func (fx *FnCtx) assign(st *State, lhs ast.Expr, v Val) {
 }
 
 func (fx *FnCtx) setVar(st *State, o *types.Var, v Val) {
+	if h, ok := fx.cells[o]; ok {
+		// a local that a closure assigns lives in a heap cell (definitions and loop havoc of the enclosing function)
+		v = fx.coerce(v, fx.sc.SortOf(o.Type()), o.Type())
+		fx.setHeap(st, h, v.S, v.T)
+		return
+	}
 	// name the value to keep terms small
 	if len(v.T) > 40 {
 		c := fx.sc.Fresh(o.Name(), v.S)
